@@ -99,12 +99,14 @@ LOADER_TRUST = COMMON_TRUST + [
 PROPS["C11"] = dict(
     units=["sauce"],
     trusted_base=LOADER_TRUST + ["array-vs-slice comparison `SAUCE_ID != data[o..o+5]` is uninterpreted in Verus: which files are *recognised* as carrying SAUCE is not decided, only what is cut when they are"],
-    unverified_remainder=["Buffer::write_sauce_info (chrono, font table, String -> SauceString::from): the writer side is covered only through SauceString::append_to and the field round-trip lemma",
+    unverified_remainder=["Buffer::write_sauce_info is proved for its framing only (appends exactly EOF + COMNT block + 128 bytes, leaves the content untouched, writes the comment count at record offset 104); the values of the other record fields (data type, file type, TInfo, flags, field order) are NOT decided on the writer side - a proof of them verified only at rlimit 80 / 50 s and was withdrawn as unstable; Buffer accessors, chrono date, to_le_bytes and SauceData::default() fields are O1 stubs",
                           "equality of the loaded pictures beyond byte-identical loader input (argued from determinism of the loaders)"],
     explanation="SauceString::{read,len,append_to} are proved against the SAUCE rev-5 field codec (LEN bytes, content then padding) and "
                 "lemma_sauce_field_roundtrip proves read(append_to(s)) equal to s under the type's trimmed equality for every content "
                 "without interior NUL. SauceData::extract is proved to return sauce_header_len == EOF byte + COMNT block (5 + 64 n) + 128 "
-                "exactly (sauce_cut), never more than the input, for every input.",
+                "exactly (sauce_cut), never more than the input, for every input, and to decode data type, width/height, ice / letter-spacing / aspect flags, title, author and group "
+                "from the SAUCE rev-5 offsets. SauceString::from never exceeds its slot. Buffer::from_bytes hands the format loader exactly bytes[..len - cut]. "
+                "lemma_cut_exact composes writer and reader: what write_sauce_info appended is exactly what is cut.",
 )
 PROPS["C02"] = dict(
     units=["sauce", "xbin_load", "fonts", "bin_load", "idf_load", "tnd_load"],
